@@ -240,3 +240,30 @@ Theorem C03_relay_publishes_what_process_returned :
     exists st lazy to push t, In (SCall st lazy (Some parts) to push t) its /\ (forall m bb, st = Some (m, bb) -> m = mid).
 Proof. exact sender_publishes_what_it_was_given. Qed.
 Print Assumptions C03_relay_publishes_what_process_returned.
+
+(* ---------------------------------------------------------------------------------------------------------------
+   The chain: source -> relay -> sink, all four machines and both channels composed (Proto/Chain.v).  The relay's glue
+   (Filter.loop_once + MQ: the send is made under the id of the frame set just received, with what process() returned -
+   MQGlue.v, compared with the real MQ on every run) is the hypothesis Hglue.  Every frame the sink is handed is the visible
+   part of what the relay's process function made of ONE source frame, under that frame's id; both consumers see prefixes of
+   what was published to them (so: in order, each id once, none skipped before the last one seen). *)
+From OF Require Import Proto.Chain.
+Theorem C03_chain_two_hops :
+  forall (p : list (str * Z) -> option (list (str * Z)))
+         nout0 req0 sits0 sid0 cid1 ll1 rits1 nout1 req1 sits1 sid1 cid2 ll2 rits2,
+    let G0 := groups_of sid0 (snd (srun (init_sender nout0 false req0) sits0)) in
+    let F1 := frames (snd (rrun Repaired (init_receiver cid1 false ll1 [c0]) rits1)) in
+    let G1 := groups_of sid1 (snd (srun (init_sender nout1 false req1) sits1)) in
+    let F2 := frames (snd (rrun Repaired (init_receiver cid2 false ll2 [c0]) rits2)) in
+    Forall group_wf G0 -> Forall group_wf G1 -> fed (stream G0) rits1 -> fed (stream G1) rits2 ->
+    (forall st lazy tm to push t, In (SCall st lazy tm to push t) sits1 ->
+       exists id b fr parts, st = Some (id, b) /\ tm = Some parts /\ In fr F1 /\ fst fr = id /\ p (app_view (snd fr)) = Some parts) ->
+    (exists k1, F1 = map frame_of (firstn k1 G0)) /\ (exists k2, F2 = map frame_of (firstn k2 G1)) /\
+    forall fr2, In fr2 F2 ->
+      exists g0 parts, In g0 G0 /\ fst fr2 = gid g0 /\ p (vparts g0) = Some parts /\
+                       app_view (snd fr2) = filter (fun tp => negb (hidden (fst tp))) parts.
+Proof.
+  intros p nout0 req0 sits0 sid0 cid1 ll1 rits1 nout1 req1 sits1 sid1 cid2 ll2 rits2 G0 F1 G1 F2 H0 H1 Hf1 Hf2 Hg.
+  exact (chain_two_hops p nout0 req0 sits0 sid0 cid1 ll1 rits1 nout1 req1 sits1 sid1 cid2 ll2 rits2 H0 H1 Hf1 Hf2 Hg).
+Qed.
+Print Assumptions C03_chain_two_hops.
